@@ -1,4 +1,4 @@
-/* C01 U5 (rest) -- the "queue hops" of the default scheduler's thread_queue: common model of the hops*.c templates.
+/* C01 U5 (rest) -- the "queue hops" of the default scheduler's thread_queue: common model of the hops_*.c templates.
  *
  * ONE symbolic victim task is followed through the containers of a thread_queue.  Each container is a contract stub that
  * keeps (a) a ghost entry count, (b) ONE membership bit for the victim, (c) a ledger tying the container to its counter:
@@ -19,6 +19,8 @@
  *   thread_map_count_       insert, then ++ ; erase, then -- ; both under mtx_: counter == entries whenever the lock is released
  *   terminated_items_count_ push, then ++ (destroy_thread) ; pop, then -- (cleanup): each move of the counter FOLLOWS the
  *                           container operation it describes; the counter may transiently under-approximate (documented)
+ * All ghost state is ONE object (G) so that dfcc's frame checks stay small; identities are recorded as small integers
+ * (TD_ID / TASK_ID / DATA_ID), never as pointers (pointers in a loop frame are havocked to invalid ones).
  */
 #ifndef HOPS_H
 #define HOPS_H
@@ -34,18 +36,11 @@ static void hops_at_acquire(void);
 #define VX_MIN(a, b) ((a) < (b) ? (a) : (b))
 #define VX_MAX(a, b) ((a) > (b) ? (a) : (b))
 
-/* ---- exceptions / error_code (throw-vs-ec is decided in C16/C19; here: "never silently dropped") ---- */
-enum { error_success = 0, error_out_of_memory = 7, error_bad_parameter = 9 };   /* opaque tokens (values are never compared with pika's) */
-struct error_code { int value; };
-static struct error_code throws;                 /* pika::throws: the address is the "please throw" marker */
-static int vx_exc;                               /* != 0: an exception propagates out of the call (token = error value) */
-static void vx_throw(int e) { VX_ASSERT(vx_exc == 0, "second throw while an exception propagates"); vx_exc = e; }
-static void vx_throws_if(struct error_code *ec, int e) { if (ec == &throws) vx_throw(e); else ec->value = e; }
-static struct error_code make_success_code(void) { struct error_code r; r.value = error_success; return r; }
-
 /* ---- objects ---- */
+enum { error_success = 0, error_out_of_memory = 7, error_bad_parameter = 9 };   /* opaque tokens (never compared with pika's values) */
+struct error_code { int value; };
 struct scheduler_base { int unused; };
-struct thread_init_data { int8_t initial_state; int8_t stacksize; int8_t priority; bool run_now; struct scheduler_base *scheduler_base; };
+struct thread_init_data { int8_t initial_state; int8_t stacksize; int8_t priority; bool run_now; };
 struct params {
   int64_t max_thread_count_, min_add_new_count_, max_add_new_count_, max_delete_count_, min_delete_count_, max_terminated_threads_;
 };
@@ -53,28 +48,101 @@ struct tq {
   struct params parameters_;
   struct vx_mutex mtx_;
   int64_t thread_map_count_, terminated_items_count_, new_tasks_count_, work_items_count_;
-  /* ghost: ledger of THIS queue's new_tasks_ (see NTINV) */
+  /* ghost: ledger of THIS queue's new_tasks_ (see NTINV) and the operations of the call under verification on it (exact) */
   long gs_entries, gs_resv, gs_owed;
   bool gs_victim;
-  long gs_pushes, gs_pops, gs_incs, gs_decs;      /* operations of the call under verification on this queue (exact, <= VX_BIG) */
+  long gs_pushes, gs_pops, gs_incs, gs_decs;
 };
-struct thread_data { struct tq *queue_; int8_t made_state; };    /* made_state: initial_state the object was created / rebound with */
+struct thread_data { int queue_; int8_t made_state; };   /* queue_: Q_ID of the queue that created it; made_state: initial_state it was created / rebound with */
 typedef struct thread_data *thread_id_ref_type;
 typedef struct thread_data *thread_id_type;
 #define invalid_thread_id NULL
 struct task_description { struct thread_init_data data; };
 struct map_ins { bool second; };
 
-static struct thread_data g_victim_td, g_other_td;
-static struct task_description g_victim_task, g_other_task, g_new_task;
-static struct tq *g_self;                         /* the queue the call under verification runs on (the RECEIVER in add_new) */
+static struct tq g_q0, g_q1;                     /* the two queue objects (add_new: receiver / source) */
+#define Q_ID(q) ((q) == &g_q0 ? 1 : (q) == &g_q1 ? 2 : 0)
+
+struct hops {
+  int exc;                                       /* != 0: an exception propagates out of the call (token = error value) */
+  int self;                                      /* Q_ID of the queue the call runs on (the RECEIVER in add_new) */
+  struct thread_data victim_td, other_td;
+  struct task_description victim_task, other_task, new_task;
+  struct thread_init_data victim_init, other_init;
+  /* where the victim is (besides q->gs_victim) */
+  bool v_mine, v_map, v_queued, v_term, v_heap;
+  /* staged */
+  long pops, v_pops; bool expect_steal;
+  long task_allocs, task_ctors, task_dtors, task_frees; int ctor_from, freed_last, last_pop, push_id;
+  /* map */
+  long map, map_pend, map_owed, ins, ins_fail, map_incs, erases, map_decs, v_ins, v_erases; int ins_id;
+  /* create_thread_object, schedule_thread */
+  long cto, v_cto; int cto_data; int8_t cto_requested;
+  long sched, v_sched; int sched_id; bool sched_other_end;
+  /* terminated */
+  long term, term_pend, term_owed, term_pushes, term_pops, term_incs, term_decs, v_term_pushes, v_term_pops; int term_push_id;
+  bool term_pops_by_others, touched_after_push;
+  /* heaps */
+  long recycles, v_recycles; int recycle_id;
+};
+static struct hops G;
+static struct error_code throws;                 /* pika::throws: the address is the "please throw" marker */
+#define vx_exc G.exc
+#define g_self (G.self == 1 ? &g_q0 : &g_q1)
+#define g_victim_td G.victim_td
+#define g_other_td G.other_td
+#define g_victim_task G.victim_task
+#define g_other_task G.other_task
+#define g_new_task G.new_task
+#define gv_mine G.v_mine
+#define gv_map G.v_map
+#define gv_queued G.v_queued
+#define gv_term G.v_term
+#define gv_heap G.v_heap
+#define g_pops G.pops
+#define g_v_pops G.v_pops
+#define g_expect_steal G.expect_steal
+#define g_task_allocs G.task_allocs
+#define g_task_ctors G.task_ctors
+#define g_task_dtors G.task_dtors
+#define g_task_frees G.task_frees
+#define g_map G.map
+#define g_map_pend G.map_pend
+#define g_map_owed G.map_owed
+#define g_ins G.ins
+#define g_ins_fail G.ins_fail
+#define g_map_incs G.map_incs
+#define g_erases G.erases
+#define g_map_decs G.map_decs
+#define g_v_ins G.v_ins
+#define g_v_erases G.v_erases
+#define g_cto G.cto
+#define g_v_cto G.v_cto
+#define g_sched G.sched
+#define g_v_sched G.v_sched
+#define g_term G.term
+#define g_term_pend G.term_pend
+#define g_term_owed G.term_owed
+#define g_term_pushes G.term_pushes
+#define g_term_pops G.term_pops
+#define g_term_incs G.term_incs
+#define g_term_decs G.term_decs
+#define g_v_term_pushes G.v_term_pushes
+#define g_v_term_pops G.v_term_pops
+#define TD_ID(p) ((p) == &G.victim_td ? 1 : (p) == &G.other_td ? 2 : 0)
+#define TASK_ID(p) ((p) == &G.victim_task ? 1 : (p) == &G.other_task ? 2 : (p) == &G.new_task ? 3 : 0)
+#define DATA_ID(p) ((p) == &G.victim_task.data ? 1 : (p) == &G.other_task.data ? 2 : (p) == &G.victim_init ? 3 : (p) == &G.other_init ? 4 : 0)
+#define IS_VICTIM_DATA(p) ((p) == &G.victim_task.data || (p) == &G.victim_init)
+
+/* ---- exceptions / error_code (throw-vs-ec is decided in C16/C19; here: "never silently dropped") ---- */
+static void vx_throw(int e) { VX_ASSERT(vx_exc == 0, "second throw while an exception propagates"); vx_exc = e; }
+static void vx_throws_if(struct error_code *ec, int e) { if (ec == &throws) vx_throw(e); else ec->value = e; }
+static struct error_code make_success_code(void) { struct error_code r; r.value = error_success; return r; }
 
 /* ---- where the victim is ---- */
-static bool gv_mine, gv_map, gv_queued, gv_term, gv_heap;
-static struct tq *gv_staged_q;                    /* the only queue in whose new_tasks_ the victim may be (harness) */
-#define GV_STAGED (gv_staged_q != NULL && gv_staged_q->gs_victim)
+#define GV_STAGED (g_q0.gs_victim || g_q1.gs_victim)
 /* exactly one place (the map is a second place only together with pending / terminated / a holder) */
-#define VP_OK ((!GV_STAGED || !(gv_mine || gv_map || gv_queued || gv_term || gv_heap)) && \
+#define VP_OK (!(g_q0.gs_victim && g_q1.gs_victim) && (!GV_STAGED || !(gv_mine || gv_map || gv_queued || gv_term || gv_heap)) && \
                (!gv_mine || !(gv_queued || gv_term || gv_heap)) && \
                (!gv_heap || !(gv_map || gv_queued || gv_term)) && \
                (!gv_queued || (gv_map && !gv_term)) && (!gv_term || gv_map))
@@ -83,8 +151,7 @@ static struct tq *gv_staged_q;                    /* the only queue in whose new
 /* ---- the staged queue new_tasks_ and its counter ---- */
 #define NTRANGE(q, slack) ((q)->gs_entries >= 0 && (q)->gs_entries <= VX_BIG - (slack) && (q)->new_tasks_count_ >= 0 && (q)->new_tasks_count_ <= 2 * VX_BIG - (slack))
 #define NTINV(q) (NTRANGE(q, 0) && (q)->gs_resv >= 0 && (q)->gs_owed >= 0 && (q)->new_tasks_count_ >= (q)->gs_entries + (q)->gs_resv + (q)->gs_owed && (!(q)->gs_victim || (q)->gs_entries >= 1))
-static long g_pops, g_v_pops;                     /* successful pops of staged tasks by this call (exact) / of the victim */
-static bool g_expect_steal;
+#define NT_UNTOUCHED(q) ((q)->gs_pops == 0 && (q)->gs_decs == 0 && (q)->gs_incs == 0 && (q)->gs_pushes == 0 && (q)->gs_owed == 0 && (q)->gs_resv == 0)
 /* environment before every lock-free access of ours: other creators push, other converters pop (trusted: they keep NTINV;
  * they may take the victim out of new_tasks_ -- it is theirs from then on -- but never put it (back) in) */
 static void nt_interfere(struct tq *q)
@@ -113,35 +180,36 @@ static int64_t atomic_dec_new_tasks_count_(struct tq *q)
   VX_ASSERT(NTINV(q), "staged ledger: new_tasks_count_ >= entries after the decrement");
   return q->new_tasks_count_;
 }
-/* task descriptions: allocate / construct / destroy / deallocate, exactly-once accounting */
-static long g_task_allocs, g_task_ctors, g_task_dtors, g_task_frees;
-static struct thread_init_data *g_ctor_from;
-static struct task_description *g_freed_last;
-static struct task_description *task_alloc(long n) { VX_ASSERT(n == 1, "one description"); BUMP(g_task_allocs); return &g_new_task; }
-static void task_construct(struct task_description *td, struct thread_init_data *from)
-{ VX_ASSERT(td == &g_new_task && g_task_allocs == 1 && g_task_ctors == 0, "constructed once, in the storage just allocated"); td->data = *from; g_ctor_from = from; BUMP(g_task_ctors); }
-static void task_destroy(struct task_description *td) { VX_ASSERT(td != NULL && td != g_freed_last, "description destroyed after it was freed"); g_task_dtors++; }
-static void task_dealloc(struct task_description *td, long n)
-{ VX_ASSERT(n == 1 && td != NULL && td != g_freed_last, "description freed twice"); VX_ASSERT(g_task_dtors == g_task_frees + 1, "destroyed exactly once before it is freed"); g_task_frees++; g_freed_last = td; }
+/* task descriptions are handled through small integer HANDLES (a `task_description*` local that is assigned in a loop would
+ * put a pointer into the loop frame): 0 = nullptr, 1 = the victim's description, 2 = any other, 3 = the one just allocated */
+typedef int task_handle;
+#define TASKP(h) ((h) == 1 ? &G.victim_task : (h) == 3 ? &G.new_task : &G.other_task)
+/* allocate / construct / destroy / deallocate, exactly-once accounting */
+static task_handle task_alloc(long n) { VX_ASSERT(n == 1, "one description"); BUMP(g_task_allocs); return 3; }
+static void task_construct(task_handle td, struct thread_init_data *from)
+{ VX_ASSERT(td == 3 && g_task_allocs == 1 && g_task_ctors == 0, "constructed once, in the storage just allocated"); G.new_task.data = *from; G.ctor_from = DATA_ID(from); BUMP(g_task_ctors); }
+static void task_destroy(task_handle td) { VX_ASSERT(td != 0 && G.freed_last != td, "description destroyed after it was freed"); g_task_dtors++; }
+static void task_dealloc(task_handle td, long n)
+{ VX_ASSERT(n == 1 && td != 0 && G.freed_last != td, "description freed twice"); VX_ASSERT(g_task_dtors == g_task_frees + 1, "destroyed exactly once before it is freed"); g_task_frees++; G.freed_last = td; }
 /* new_tasks_.push(td): always succeeds (unbounded lock-free queue) */
-static bool nt_push(struct tq *q, struct task_description *td)
+static bool nt_push(struct tq *q, task_handle td)
 {
   nt_interfere(q);
-  VX_ASSERT(td != NULL, "a null description is never staged");
+  VX_ASSERT(td != 0, "a null description is never staged");
   VX_ASSERT(q->gs_resv >= 1, "new_tasks_count_ is incremented BEFORE the insertion it describes (it never under-approximates)");
-  if (td == &g_victim_task || (td == &g_new_task && g_ctor_from == &g_victim_task.data))
+  if (td == 1 || (td == 3 && G.ctor_from == 3))
   {
     VX_ASSERT(gv_mine && !GV_STAGED, "a task is never staged twice / never staged while it exists elsewhere");
-    gv_staged_q = q; q->gs_victim = true; gv_mine = false;
+    q->gs_victim = true; gv_mine = false;
   }
-  q->gs_entries++; q->gs_resv--; q->gs_pushes++;
+  q->gs_entries++; q->gs_resv--; q->gs_pushes++; G.push_id = td;
   VX_ASSERT(NTINV(q), "staged ledger: new_tasks_count_ >= entries after the insertion");
   VP_CHECK("new_tasks_.push");
   return true;
 }
 /* new_tasks_.pop(out, steal): removes one entry if there is one (may fail spuriously under contention).  Every staged task
  * has initial_state == pending (thread_queue::create_thread refuses to stage anything else: unit hops.tq.create_thread). */
-static bool nt_pop(struct tq *q, struct task_description **out, bool steal)
+static bool nt_pop(struct tq *q, task_handle *out, bool steal)
 {
   nt_interfere(q);
   VX_ASSERT(steal == g_expect_steal, "the caller's steal flag is passed to the container");
@@ -150,9 +218,10 @@ static bool nt_pop(struct tq *q, struct task_description **out, bool steal)
     VX_ASSUME(g_pops < VX_BIG);                  /* ghost bound: fewer than 10^9 conversions per call (listed) */
     bool take_victim = q->gs_victim && (q->gs_entries == 1 || nondet_bool());
     q->gs_entries--; q->gs_owed++; q->gs_pops++; g_pops++;
-    if (take_victim) { q->gs_victim = false; gv_mine = true; BUMP(g_v_pops); *out = &g_victim_task; }
-    else { *out = &g_other_task; g_other_task.data.stacksize = nondet_i8(); g_other_task.data.priority = nondet_i8(); g_other_task.data.run_now = nondet_bool(); }
-    (*out)->data.initial_state = thread_schedule_state_pending;
+    if (take_victim) { q->gs_victim = false; gv_mine = true; BUMP(g_v_pops); *out = 1; }
+    else { *out = 2; g_other_task.data.stacksize = nondet_i8(); g_other_task.data.priority = nondet_i8(); g_other_task.data.run_now = nondet_bool(); }
+    TASKP(*out)->data.initial_state = thread_schedule_state_pending;
+    G.last_pop = *out;
     VP_CHECK("new_tasks_.pop");
     return true;
   }
@@ -160,9 +229,6 @@ static bool nt_pop(struct tq *q, struct task_description **out, bool steal)
 }
 
 /* ---- thread_map_ and thread_map_count_ (both only under mtx_ of the queue) ---- */
-static long g_map, g_map_pend, g_map_owed;       /* entries; inserted-not-yet-counted; erased-not-yet-uncounted */
-static long g_ins, g_ins_fail, g_map_incs, g_erases, g_map_decs, g_v_ins, g_v_erases;
-static thread_id_type g_ins_id;
 #define MAPRANGE(q, slack) (g_map >= 0 && g_map <= VX_BIG - (slack) && (q)->thread_map_count_ >= -2 && (q)->thread_map_count_ <= VX_BIG)
 #define MAPINV(q) (MAPRANGE(q, 0) && (q)->thread_map_count_ == g_map && g_map_pend == 0 && g_map_owed == 0 && (!gv_map || g_map >= 1))
 #define LOCKED(q) ((q)->mtx_.held)
@@ -173,7 +239,7 @@ static struct map_ins map_insert(struct tq *q, thread_id_type id)
   VX_ASSERT(LOCKED(q), "thread_map_ is accessed only under mtx_");
   VX_ASSERT(id != NULL, "a null id is never put into the map");
   bool present = (id == &g_victim_td) ? gv_map : nondet_bool();     /* other ids: the set may refuse (defensive path kept reachable) */
-  g_ins_id = id;
+  G.ins_id = TD_ID(id);
   if (present) { r.second = false; g_ins_fail++; return r; }
   VX_ASSUME(g_map < VX_BIG - 8);                 /* ghost bound on the number of live threads of one queue (listed) */
   if (id == &g_victim_td) { VX_ASSERT(gv_mine, "the thread inserted into the map is the one this call just created"); gv_map = true; BUMP(g_v_ins); }
@@ -235,33 +301,32 @@ static void hops_at_acquire(void)
 #define OWNS(lk) ((lk)->owns && (lk)->m->held)
 
 /* ---- create_thread_object: contract stub (once-ness / lock: unit hops.heap.create_thread_object; size class: C12 heap.*) ---- */
-static long g_cto, g_v_cto;
-static struct thread_init_data *g_cto_data;
-static int8_t g_cto_requested;
 static void cto(struct tq *q, thread_id_ref_type *thrd, struct thread_init_data *data, struct ulock *lk)
 {
   VX_ASSERT(q == g_self, "the thread object is created by (and belongs to) the RECEIVING queue");
   VX_ASSERT(OWNS(lk) && lk->m == &q->mtx_, "create_thread_object precondition: the queue's lock is held");
   VX_ASSERT(*thrd == NULL, "the id that receives the new object is empty");
-  g_cto++; g_cto_data = data; g_cto_requested = data->initial_state;
+  VX_ASSERT(G.last_pop == 0 || DATA_ID(data) == G.last_pop, "the thread object is made from the description that was just popped");
+  g_cto++; G.cto_data = DATA_ID(data); G.cto_requested = data->initial_state;
   if (data->initial_state == thread_schedule_state_pending_do_not_schedule || data->initial_state == thread_schedule_state_pending_boost)
     data->initial_state = thread_schedule_state_pending;
   if (nondet_bool()) { ulock_unlock(lk); ulock_lock(lk); }          /* no recyclable object: allocation with the lock released */
-  if (data == &g_victim_task.data)
+  if (IS_VICTIM_DATA(data))
   {
     VX_ASSERT(gv_mine && g_v_cto == 0 && !gv_map, "one thread object per task");
     BUMP(g_v_cto); *thrd = &g_victim_td;
   }
   else *thrd = &g_other_td;
-  (*thrd)->queue_ = q; (*thrd)->made_state = data->initial_state;
+  (*thrd)->queue_ = Q_ID(q); (*thrd)->made_state = data->initial_state;
 }
-static struct tq *td_get_queue(struct thread_data *t) { return t->queue_; }
+static struct tq *td_get_queue(struct thread_data *t)
+{
+  VX_ASSERT(!(t == &g_victim_td && G.touched_after_push), "the thread object is not touched after it was handed to terminated_items_");
+  return t->queue_ == 1 ? &g_q0 : t->queue_ == 2 ? &g_q1 : NULL;
+}
 
 /* ---- thread_queue::schedule_thread: replaced by its contract (unit queue.schedule_thread): exactly one insertion of exactly
  * this thread into work_items_, never of a thread that is already queued; work_items_count_ net +1 ---- */
-static long g_sched, g_v_sched;
-static thread_id_ref_type g_sched_id;
-static bool g_sched_other_end;
 static void tq_schedule_thread(struct tq *q, thread_id_ref_type thrd, bool other_end)
 {
   VX_ASSERT(q == g_self, "the new thread is queued in the RECEIVING queue");
@@ -275,23 +340,19 @@ static void tq_schedule_thread(struct tq *q, thread_id_ref_type thrd, bool other
   if (nondet_bool()) { q->work_items_count_ = nondet_i64(); VX_ASSUME(q->work_items_count_ >= 0 && q->work_items_count_ < 2 * VX_BIG); }
   q->work_items_count_ = q->work_items_count_ + 1;
   VX_ASSUME(g_sched < VX_BIG);
-  g_sched++; g_sched_id = thrd; g_sched_other_end = other_end;
+  g_sched++; G.sched_id = TD_ID(thrd); G.sched_other_end = other_end;
   VP_CHECK("schedule_thread");
 }
 
 /* ---- terminated_items_ and terminated_items_count_ ---- */
-static long g_term, g_term_pend, g_term_owed;    /* entries; pushed-not-yet-counted; popped-not-yet-uncounted (this call) */
-static long g_term_pushes, g_term_pops, g_term_incs, g_term_decs, g_v_term_pushes, g_v_term_pops;
-static struct thread_data *g_term_push_id;
 #define TERMRANGE(q, slack) (g_term >= 0 && g_term <= VX_BIG - (slack) && (q)->terminated_items_count_ >= -VX_BIG && (q)->terminated_items_count_ <= VX_BIG - (slack))
 #define TERMINV(q) (TERMRANGE(q, 0) && (!gv_term || g_term >= 1))
-static bool g_term_pops_by_others;               /* false while this call holds mtx_: terminated_items_ is popped only under the lock */
 static void term_interfere(struct tq *q)
 {
   if (nondet_bool())
   {
     long e = nondet_long();
-    VX_ASSUME(g_term_pops_by_others || e >= g_term);                /* other destroy_thread calls push (and count) at any time */
+    VX_ASSUME(G.term_pops_by_others || e >= g_term);                /* other destroy_thread calls push (and count) at any time */
     g_term = e; q->terminated_items_count_ = nondet_i64();
     if (!gv_mine && gv_map && !gv_queued && !gv_term && nondet_bool()) gv_term = true;   /* ... possibly the victim, once its last reference died */
     VX_ASSUME(TERMRANGE(q, 8) && TERMINV(q));
@@ -304,10 +365,10 @@ static void term_push(struct tq *q, struct thread_data *t)
   if (t == &g_victim_td)
   {
     VX_ASSERT(gv_mine && gv_map && !gv_queued && !gv_term && !gv_heap, "a thread is destroyed once, and never while it is still queued");
-    gv_term = true; gv_mine = false; BUMP(g_v_term_pushes);
+    gv_term = true; gv_mine = false; BUMP(g_v_term_pushes); G.touched_after_push = true;
   }
   VX_ASSUME(g_term < VX_BIG - 8);
-  g_term++; g_term_pend++; g_term_pushes++; g_term_push_id = t;
+  g_term++; g_term_pend++; g_term_pushes++; G.term_push_id = TD_ID(t);
   VP_CHECK("terminated_items_.push");
 }
 static bool term_pop(struct tq *q, struct thread_data **out)
@@ -341,19 +402,15 @@ static int64_t atomic_dec_terminated_items_count_(struct tq *q)
 }
 static int64_t atomic_load_terminated_items_count_(struct tq *q) { term_interfere(q); return q->terminated_items_count_; }
 
-/* ---- ghost initialisation shared by the harnesses (dfcc makes every static nondeterministic) ---- */
+/* ---- initialisation shared by the harnesses (dfcc makes every static nondeterministic) ---- */
+static void hops_task_init(struct thread_init_data *d)
+{ d->initial_state = nondet_i8(); d->stacksize = nondet_i8(); d->priority = nondet_i8(); d->run_now = nondet_bool(); }
 static void hops_ghost_init(void)
 {
-  vx_exc = 0; throws.value = 0;
-  gv_mine = gv_map = gv_queued = gv_term = gv_heap = false; gv_staged_q = NULL;
-  g_pops = g_v_pops = 0; g_expect_steal = false;
-  g_task_allocs = g_task_ctors = g_task_dtors = g_task_frees = 0; g_ctor_from = NULL; g_freed_last = NULL;
-  g_map = 0; g_map_pend = g_map_owed = 0; g_ins = g_ins_fail = g_map_incs = g_erases = g_map_decs = g_v_ins = g_v_erases = 0; g_ins_id = NULL;
-  g_cto = g_v_cto = 0; g_cto_data = NULL; g_cto_requested = 0;
-  g_sched = g_v_sched = 0; g_sched_id = NULL; g_sched_other_end = false;
-  g_term = 0; g_term_pend = g_term_owed = 0; g_term_pushes = g_term_pops = g_term_incs = g_term_decs = g_v_term_pushes = g_v_term_pops = 0;
-  g_term_push_id = NULL; g_term_pops_by_others = true;
-  g_victim_td.queue_ = NULL; g_victim_td.made_state = 0; g_other_td.queue_ = NULL; g_other_td.made_state = 0;
+  G = (struct hops){0};                                   /* every counter 0, every flag false, every id 0 */
+  G.self = 1; G.term_pops_by_others = true; throws.value = 0;
+  hops_task_init(&G.victim_task.data); hops_task_init(&G.other_task.data); hops_task_init(&G.new_task.data);
+  hops_task_init(&G.victim_init); hops_task_init(&G.other_init);
 }
 static void hops_queue_init(struct tq *q)
 {
@@ -364,14 +421,4 @@ static void hops_queue_init(struct tq *q)
   q->gs_entries = nondet_long(); q->gs_resv = 0; q->gs_owed = 0; q->gs_victim = false;
   q->gs_pushes = q->gs_pops = q->gs_incs = q->gs_decs = 0;
 }
-static void hops_task_init(struct task_description *t)
-{
-  t->data.initial_state = nondet_i8(); t->data.stacksize = nondet_i8(); t->data.priority = nondet_i8(); t->data.run_now = nondet_bool(); t->data.scheduler_base = NULL;
-}
-#define HOPS_GHOST vx_exc, throws, gv_mine, gv_map, gv_queued, gv_term, gv_heap, gv_staged_q, g_pops, g_v_pops, \
-  g_task_allocs, g_task_ctors, g_task_dtors, g_task_frees, g_ctor_from, g_freed_last, \
-  g_map, g_map_pend, g_map_owed, g_ins, g_ins_fail, g_map_incs, g_erases, g_map_decs, g_v_ins, g_v_erases, g_ins_id, \
-  g_cto, g_v_cto, g_cto_data, g_cto_requested, g_sched, g_v_sched, g_sched_id, g_sched_other_end, \
-  g_term, g_term_pend, g_term_owed, g_term_pushes, g_term_pops, g_term_incs, g_term_decs, g_v_term_pushes, g_v_term_pops, g_term_push_id, \
-  g_victim_td, g_other_td, g_victim_task, g_other_task, g_new_task
 #endif
